@@ -3,7 +3,7 @@ import TsVerif.C05.Model
 # C05 — parser for the generated subset of the query language (driver only)
 
 `parseQuery text` returns the top-level patterns as `Item`s, or `none` when the text uses
-something outside the modelled subset (groups, supertypes, predicates, anchored quantified
+something outside the modelled subset (quantified / captured / top-level groups, supertypes, predicates, anchored quantified
 items, quantified roots): such cases are counted as *unsupported* by the check, never compared.
 -/
 namespace TsVerif.C05
@@ -66,6 +66,7 @@ structure KidsAcc where
   neg : List String := []
   dot : Bool := false
   prevWild : Bool := false   -- the previous child pattern is the unnamed wildcard `_`
+  group : Nat := 0           -- open non-quantified groups `( … )` whose items are spliced in
 
 def isWildAny : Item → Bool
   | .mk _ _ (.node .wildAny _ _ _) .one _ => true
@@ -109,10 +110,23 @@ mutual
     | fuel + 1 =>
       match ts with
       | .rp :: rest =>
+        if acc.group > 0 then
+          -- end of a non-quantified, uncaptured group: its items were spliced into the sibling
+          -- sequence (a quantified or captured group is outside the fragment)
+          match rest with
+          | .quant _ :: _ => none
+          | .cap _ :: _ => none
+          | .dot :: _ => none      -- an anchor next to a group: the implementation decides differently; outside the fragment
+          | _ => if acc.dot then none else parseKids fuel t rest { acc with group := acc.group - 1 }
+        else
         some (.node t acc.neg acc.items.toList (acc.dot && !acc.items.isEmpty), rest)
       | .dot :: rest => if acc.dot then none else parseKids fuel t rest { acc with dot := true }
       | .bang :: .ident f :: rest =>
         if acc.dot then none else parseKids fuel t rest { acc with neg := acc.neg ++ [f] }
+      | .lp :: .rp :: _ => none
+      | .lp :: .lp :: rest => if acc.dot then none else parseKids fuel t (.lp :: rest) { acc with group := acc.group + 1 }
+      | .lp :: .lb :: rest => if acc.dot then none else parseKids fuel t (.lb :: rest) { acc with group := acc.group + 1 }
+      | .lp :: .str x :: rest => if acc.dot then none else parseKids fuel t (.str x :: rest) { acc with group := acc.group + 1 }
       | _ =>
         let a : Anchor := if acc.dot then (if acc.prevWild then .strict else .loose) else .none
         match parseItem fuel a ts with
